@@ -46,8 +46,9 @@ func c20RunSub(p c20Params) (c20Result, error) {
 		cmd = exec.Command(px, string(arg))
 	}
 	cmd.SysProcAttr = &syscall.SysProcAttr{Setpgid: true}
-	var out strings.Builder
+	var out, errb strings.Builder
 	cmd.Stdout = &out
+	cmd.Stderr = &errb
 	cmd.WaitDelay = 2 * time.Second // worker processes inherit stdout: do not wait for them
 	if err := cmd.Start(); err != nil {
 		return c20Result{}, err
@@ -79,8 +80,9 @@ func c20RunReal(p pm.RealParams) (pm.RealResult, error) {
 	arg, _ := json.Marshal(p)
 	cmd := exec.Command(px, "real", string(arg))
 	cmd.SysProcAttr = &syscall.SysProcAttr{Setpgid: true}
-	var out strings.Builder
+	var out, errb strings.Builder
 	cmd.Stdout = &out
+	cmd.Stderr = &errb
 	cmd.WaitDelay = 2 * time.Second
 	if err := cmd.Start(); err != nil {
 		return pm.RealResult{}, err
@@ -88,16 +90,26 @@ func c20RunReal(p pm.RealParams) (pm.RealResult, error) {
 	done := make(chan error, 1)
 	go func() { done <- cmd.Wait() }()
 	defer syscall.Kill(-cmd.Process.Pid, syscall.SIGKILL)
+	var werr error
 	select {
-	case <-done:
+	case werr = <-done:
 	case <-time.After(120 * time.Second):
 		syscall.Kill(-cmd.Process.Pid, syscall.SIGKILL)
 		<-done
 		return pm.RealResult{}, fmt.Errorf("scenario did not finish within 120 s")
 	}
 	var r pm.RealResult
+	if strings.TrimSpace(out.String()) == "" && werr != nil && strings.Contains(errb.String(), "[PARENT]") {
+		// the master ended itself (log.Fatal in its own bookkeeping) while serving the scenario:
+		// no pool is left, whatever the requests were
+		tail := errb.String()
+		if i := strings.LastIndex(tail, "[PARENT]"); i >= 0 {
+			tail = tail[i:]
+		}
+		return pm.RealResult{Violations: []string{"the master process stopped while serving: " + clipS(strings.TrimSpace(tail), 200)}}, nil
+	}
 	if err := json.Unmarshal([]byte(out.String()), &r); err != nil {
-		return pm.RealResult{}, fmt.Errorf("bad result: %v (%q)", err, clipS(out.String(), 200))
+		return pm.RealResult{}, fmt.Errorf("bad result: %v (stdout %q, stderr %q, exit %v)", err, clipS(out.String(), 200), clipS(errb.String(), 600), werr)
 	}
 	return r, nil
 }
@@ -128,6 +140,15 @@ func c20RealScenarios(tier string) []pm.RealParams {
 		for _, s := range seqs {
 			out = append(out, pm.RealParams{Init: c[0], Max: c[1], Requests: s})
 		}
+	}
+	// one worker that served a request, sat idle for longer than --timeout, and serves again:
+	// a request that takes less than --timeout is answered (P = idle pause of 1.6 s, --timeout 1 s)
+	idle := []string{"FPS", "SPS", "FPF", "H", "HF", "HH"}
+	if tier == "thorough" {
+		idle = append(idle, "FPFPS", "SPFPS", "HPS", "FPH")
+	}
+	for _, s := range idle {
+		out = append(out, pm.RealParams{Init: 1, Max: 1, Requests: s})
 	}
 	return out
 }
@@ -163,7 +184,7 @@ func init() {
 		ID:    "C20",
 		Level: "model_checking",
 		Rule: "E3 on the real prefork master with real child processes (the harness binary re-executed as a fake worker): configurations 1 <= init <= max <= M x every sequence of E environment events over {worker 0..W-1} x {reports BUSY, reports IDLE, times out (reports STOPPED and exits), exits}; within an execution the controller chooses at every step between delivering any pending hand-over (child registered / state report / child exit, released one at a time so the master's select never has two ready senders), letting any pending spawn proceed, and firing the next environment event; default = pending hand-overs first (FIFO), then spawns, then the event; every alternative within the deviation bound is explored (stateless DFS, one fresh OS process per execution). Invariants after every step: live worker processes (controller's registry of real processes) <= max-procs and the master's own child count <= max-procs; at quiescence (all workers idle, everything drained): live >= init-procs and the master's registry equals the set of live processes. " +
-			"Plus a small enumerated (not exhaustive) real-worker family: the real master with the real StartWorker and a handler that can hang, free-running, for every sequence of <= 2 (thorough 3) requests over {fast, slow, hanging}: every request is answered exactly once by one worker (a hanging one gets its connection closed when its worker is terminated after --timeout), no worker reports BUSY twice without IDLE, the pool stays <= max-procs and returns to >= init-procs.",
+			"Plus a small enumerated (not exhaustive) real-worker family: the real master with the real StartWorker and a handler that can hang, free-running, for every sequence of <= 2 (thorough 3) requests over {fast, slow, hanging}, plus, on a one-worker pool, sequences with an idle pause longer than --timeout between two requests and sequences whose only worker hangs (the master must survive having no worker at all for a moment): every request is answered exactly once by one worker (a hanging one gets its connection closed when its worker is terminated after --timeout), no worker reports BUSY twice without IDLE, the pool stays <= max-procs and returns to >= init-procs.",
 		Assumptions: []string{
 			"the controller waits for the consequence gates each action must produce (8 s failure detector, reported as a harness error, never as a violation)",
 			"kernel scheduling of real accept()/timeouts of real workers is not part of this exploration; Unix-socket listeners are not covered",
